@@ -1221,7 +1221,9 @@ fn sgr_color<'a>(mut cmds: impl Iterator<Item = &'a [u8]>) -> Option<RGBA> {
                 cmds.next().and_then(number_decode),
             ] {
                 [Some(r), Some(g), Some(b), None] | [_, Some(r), Some(g), Some(b)] => {
-                    Some(RGBA::new(r as u8, g as u8, b as u8, 255))
+                    // components above 255 are not valid
+                    let component = |value: usize| u8::try_from(value).ok();
+                    Some(RGBA::new(component(r)?, component(g)?, component(b)?, 255))
                 }
                 _ => None,
             }
